@@ -79,6 +79,17 @@ def literals(rng, n_random, thorough):
     # literals longer than 255 / 1000 characters (digit counters that do not fit a byte)
     out += ["1" + "0" * 300, "1" + "0" * 310, "0." + "0" * 300 + "123", "0." + "0" * 330 + "5", "123456789" * 40 + "e-300", "9" * 1000 + "e-980",
             "0" * 300 + "1.5", "1." + "3" * 700, "-" + "7" * 260 + "." + "1" * 260 + "e-250x", "1e" + "0" * 300 + "5", "5e-" + "0" * 280 + "3"]
+    # digit strings at the capacity of 64-, 63-, 53- and 32-bit accumulators (and one tenth of it), with the decimal point at
+    # every position, every following digit, with and without exponent
+    for base in (2 ** 64 - 1, 2 ** 64, (2 ** 64 - 1) // 10, 2 ** 63 - 1, 2 ** 63, (2 ** 63 - 1) // 10, 2 ** 53, 2 ** 53 + 1, 2 ** 32 - 1, (2 ** 32 - 1) // 10, 10 ** 19 - 1, 10 ** 18):
+        sdig = str(base)
+        for d in "0569":
+            full = sdig + d
+            for pos in (0, 1, len(full) // 2, len(full) - 2, len(full) - 1, len(full)):
+                lit = full[:pos] + "." + full[pos:]
+                out.append(lit); 
+                if rng.random() < 0.3: out.append("-" + lit + "e" + str(rng.randrange(-30, 30)))
+        out.append(sdig); out.append(sdig + "e-5")
     out += ["1.7976931348623157e308", "1.7976931348623159e308", "1.8e308", "2.2250738585072014e-308", "4.9406564584124654e-324", "2.4703282292062327e-324", "2.48e-324", "1e-400", "1e400",
             "3.4028234e38", "3.4028236e38", "1.17549435e-38", "1.4e-45", "0.7e-45", "1e-50", "307582293.333333", "0.1", "0.2", "0.3", "123456789012345678", "9007199254740993", "9007199254740992.5",
             "0e5", "0.0e-5", "-0", "-0.0", "000001", "1e0", "1e-0", "1e+0", "0000.00001e5"]
